@@ -1,6 +1,7 @@
 """C01 - reception is memory-safe, free of undefined behaviour, crash-free."""
 from props.base import *
 from props.blk import *
+CORR_IS_SPEC = True    # fault / no fault (C01) and the event value (C11) are exactly what the property states
 COQ_TARGETS = ['props/Properties_C01.vo']
 RULE = ('frame histories interleaved with ticks and clock advances on interfaces with MTU 576, 577, 1500, 9216 and random, wired / Wi-Fi, names 0..40 bytes: every '
         'opcode x ToS pair, wire counters (Emit descriptors, Discover stations) 0, 1, the largest that fits, one more, 0xFFFF, truncated and over-long frames, all four '
